@@ -1,0 +1,36 @@
+//go:build verif
+
+package storage
+
+import (
+	"github.com/MixinNetwork/mixin/common"
+	"github.com/MixinNetwork/mixin/crypto"
+)
+
+// Verification hooks for the round checks C18 and C20 (thin wrappers).
+
+// VerifC18ComputeRoundHash is the startup validator's round hash.
+func VerifC18ComputeRoundHash(nodeId crypto.Hash, number uint64, snapshots []*common.SnapshotWithTopologicalOrder) (uint64, uint64, crypto.Hash) {
+	return computeRoundHash(nodeId, number, snapshots)
+}
+
+// VerifC20WriteRound stores one ROUND record under key, the way LoadGenesis does.
+func (s *BadgerStore) VerifC20WriteRound(key crypto.Hash, round *common.Round) error {
+	txn := s.snapshotsDB.NewTransaction(true)
+	defer txn.Discard()
+	err := writeRound(txn, key, round)
+	if err != nil {
+		return err
+	}
+	return txn.Commit()
+}
+
+// VerifC20RoundLinkPrefixes returns the key prefixes of ROUND and LINK records.
+func VerifC20RoundLinkPrefixes() (string, string) {
+	return graphPrefixRound, graphPrefixLink
+}
+
+// VerifC20LinkKey is the key of the LINK record from -> to.
+func VerifC20LinkKey(from, to crypto.Hash) []byte {
+	return graphLinkKey(from, to)
+}
